@@ -663,6 +663,7 @@ func TestVF_C13(t *testing.T) {
 	for _, n := range relayPoints {
 		n := n
 		for rep := 0; rep < vfPick(1, 6); rep++ {
+			rep := rep
 			mk(fmt.Sprintf("point-%d-%s_%s-%d", n, points[n][0], points[n][1], rep), func() *vfYieldPlan {
 				return &vfYieldPlan{mode: "point", pointA: n, delay: time.Duration([]int{2, 8, 1, 20, 4, 12}[rep]) * time.Millisecond}
 			}, 8)
